@@ -401,6 +401,7 @@ def c05(tier):
         for o in orders(3, 'all'):
             qs.append(rq('rcu_abc_R2_o' + ''.join(map(str, o)), 'ABC', 2, order=o, defines=d, timeout=3000, solvers=('kissat', 'cadical', 'minisat')))
         qs.append(rq('rcu_reader_writer_R4', 'AB', 4, defines=d, timeout=3000))
+        qs.append(rq('rcu_eraser2_stale_eraser_short_R2', 'BDC', 2, order=(1, 0, 2), defines=['ERASE_POS=0', 'ERASE_TWO', 'W2_ERASE_FIRST'], timeout=3000))
         qs.append(rq('rcu_writer_short_R4', 'BC', 4, defines=d, timeout=3000))
         qs.append(rq('rcu_n3_erase_mid_abc_R2', 'ABC', 2, order=(1, 2, 0), defines=['NINIT=3', 'ERASE_POS=1'], timeout=3000))
         qs.append(rq('rcu_abc_R3_o120', 'ABC', 3, order=(1, 2, 0), defines=['ERASE_POS=0'], timeout=3000, solvers=('kissat', 'cadical')))
@@ -424,6 +425,10 @@ def c12(tier):
         qs.append(rq('rcu_reader_2writers_R2_o201', 'ABD', 2, order=(2, 0, 1), defines=d))
         qs.append(rq('rcu_2writers_R3', 'BD', 3, defines=d))
         qs.append(rq('rcu_2erasers_same_R3', 'BD', 3, defines=['ERASE_POS=0', 'W2_ERASE_FIRST']))
+        # every insertion method against a traversing reader: push_front (emplace_front / push_back are in the queries above)
+        qs.append(rq('rcu_reader_pushfront_R3', 'AD', 3, defines=['W2_PUSH_FRONT', 'EXPECT_SUM=35']))
+        # a stale second erase of an element whose neighbour was erased meanwhile must stay a no-op
+        qs.append(rq('rcu_eraser2_stale_eraser_R3', 'BD', 3, defines=['ERASE_POS=0', 'ERASE_TWO', 'W2_ERASE_FIRST']))
     else:
         qs.append(rq('rcu_2erasers_same_reader_R2', 'ABD', 2, order=(1, 2, 0), defines=['ERASE_POS=0', 'W2_ERASE_FIRST'], timeout=3000))
         qs.append(rq('rcu_2erasers_same_R4', 'BD', 4, defines=['ERASE_POS=0', 'W2_ERASE_FIRST'], timeout=3000))
